@@ -782,3 +782,36 @@ Qed.
 End Data2.
 
 End Pre.
+
+(* both entry modes in one statement *)
+Theorem kernel_prefix_stable :
+  forall (src offs : list Z) (maxrow ncols : Z),
+  len offs = ncols + 1 -> 0 < ncols -> 0 < maxrow ->
+  forall (V : Z) (rows : list (list cell)),
+  nthZ offs 0 = 0 ->
+  (forall c, 0 <= c < ncols -> nthZ offs c + len (CB rows c) < nthZ offs (c + 1)) ->
+  nthZ offs ncols <= V ->
+  Forall (fun rw : list cell => len rw = ncols) rows ->
+  forall (hasHeader : bool) (hdr : list cell) (k : nat) (i0 : Z) (inds : arr2) (vals p : list Z),
+  (k <= length rows)%nat -> Z.of_nat k <= maxrow -> 0 <= i0 <= len src ->
+  (hasHeader = true -> i0 = 0 /\ len hdr = ncols) ->
+  suf src i0 = (if hasHeader then render_row hdr else []) ++ render_file (firstn k rows) ++ p ->
+  cut maxrow rows k p ->
+  shape ncols (maxrow + 1) inds -> (forall c, 0 <= c < ncols -> I2 inds c 0 = 0) -> len vals = V ->
+  exists out, fast_csv_reader (fsm_fuel src i0) src i0 inds vals offs hasHeader = Ok out /\
+    f_next out = i0 + len (if hasHeader then render_row hdr else []) + len (render_file (firstn k rows)) /\
+    f_rows out = Z.of_nat k /\ f_ifull out = (Z.of_nat k =? maxrow) /\ f_vfull out = false /\
+    Good ncols (maxrow + 1) V offs rows (fun _ => Z.of_nat k) (f_inds out) (f_vals out).
+Proof.
+  intros src offs maxrow ncols Hoffs Hncols Hmaxrow V rows Hoffs0 Hbudget HV Hrect hasHeader hdr k i0 inds vals p
+         Hk Hkm Hi0 Hh Hsuf Hcut Hsh H0 Hv.
+  destruct hasHeader.
+  - destruct (Hh eq_refl) as (-> & Hhdr). rewrite suf_0 in Hsuf.
+    destruct (kernel_prefix_hdr src offs maxrow ncols Hoffs Hncols Hmaxrow V rows Hoffs0 Hbudget HV Hrect hdr k inds vals p
+                Hk Hkm Hhdr Hsuf Hcut Hsh H0 Hv) as (out & E & Hn & Hrest).
+    exists out. split; [exact E|]. split; [rewrite Hn; lia|exact Hrest].
+  - cbn [app] in Hsuf.
+    destruct (kernel_prefix_nohdr src offs maxrow ncols Hoffs Hncols Hmaxrow V rows Hoffs0 Hbudget HV Hrect k i0 inds vals p
+                Hk Hkm Hi0 Hsuf Hcut Hsh H0 Hv) as (out & E & Hn & Hrest).
+    exists out. split; [exact E|]. split; [rewrite Hn; replace (len (@nil Z)) with 0 by reflexivity; lia|exact Hrest].
+Qed.
